@@ -66,6 +66,7 @@ type UpRec struct {
 	Shareable bool
 	Lifetime  int
 	Verdict   Verdict
+	EndT      int64
 	EndSeq    int // seq at which the request stopped being in flight (reply / caller timeout / kill); 0 = still in flight
 }
 
